@@ -130,7 +130,10 @@ def pure(ctx):
         res.saw(ep)
     res.notes.append(f'{len(eps)} entry points, {len(total_fns)} functions in '
                      f'the union of closures')
-    res.require(100, 'query entry points')
+    res.min_instances = 100
+    if len(eps) < 100:
+        raise AnalysisError(f'PURE: only {len(eps)} query entry points found, '
+                            f'100 confirmed by reading')
     return res
 
 
@@ -249,7 +252,7 @@ def no_param_mutation(ctx):
                 res.fail(ctx.finding(
                     'NO-PARAM-MUTATION', init, n,
                     f'{cn} stores its argument {n.value.id} without copying'))
-    res.require(100)
+    res.min_instances = 100
     return res
 
 
